@@ -209,6 +209,40 @@ def evalD (p dp : List K) (x dx : K) : K × K :=
 /-- derivative of a product (polynomial.py:227-236): `arg.wod * dself + self.wod * darg` -/
 def mulDerivC (p dp q dq : List K) : List K := addC (mulC q dp) (mulC p dq)
 
+/-- one leading element of a `Polynomial` with one derivative `d_dt` (a Polynomial of the same
+    order; an absent derivative is the zero list) -/
+structure PCellD (K : Type) where
+  c : List K
+  d : List K
+  m : Bool
+  deriving Repr
+
+/-- `__add__` with derivatives: `at_least_order(recursive=True)` pads the derivative like its parent
+    (polynomial.py:122-125), `Vector + Vector` adds the derivatives (qube.py `_add_derivs`) -/
+def PCellD.add (a b : PCellD K) : PCellD K := ⟨addC a.c b.c, addC a.d b.d, a.m || b.m⟩
+def PCellD.sub (a b : PCellD K) : PCellD K := ⟨subC a.c b.c, subC a.d b.d, a.m || b.m⟩
+def PCellD.rsub (a b : PCellD K) : PCellD K := ⟨subC b.c a.c, subC b.d a.d, a.m || b.m⟩
+/-- `-Vector` negates the derivatives -/
+def PCellD.neg (a : PCellD K) : PCellD K := ⟨negC a.c, negC a.d, a.m⟩
+/-- `Vector * number` scales the derivatives -/
+def PCellD.scale (k : K) (a : PCellD K) : PCellD K := ⟨scaleC k a.c, scaleC k a.d, a.m⟩
+/-- `__mul__` with derivatives (polynomial.py:198-240) -/
+def PCellD.mul (a b : PCellD K) : PCellD K := ⟨mulC a.c b.c, mulDerivC a.c a.d b.c b.d, a.m || b.m⟩
+/-- `deriv()` differentiates the derivatives too (polynomial.py:316-318) -/
+def PCellD.deriv (a : PCellD K) : PCellD K := ⟨derivC a.c, derivC a.d, a.m⟩
+
+/-- `for k in range(2,arg): result = result * self` with derivatives -/
+def powLoopD (p : PCellD K) : Nat → PCellD K → PCellD K
+  | 0, r => r
+  | n + 1, r => powLoopD p n (r.mul p)
+
+/-- `__pow__` with derivatives (polynomial.py:273-288): `p**0` is the constant 1 without
+    derivatives, `p**1` is `p`, otherwise repeated `*` (each applying the product rule) -/
+def PCellD.pow (p : PCellD K) : Nat → PCellD K
+  | 0 => ⟨[1], [0], false⟩
+  | 1 => p
+  | n + 2 => powLoopD p n (p.mul p)
+
 end Derivs
 
 /-- `roots()` derivative (polynomial.py `_insert_root_derivs`): `dx/dt = -dp/dt(x) / p'(x)` -/
@@ -283,6 +317,16 @@ def sortCells (l : List (SCell K)) : List (SCell K) := l.mergeSort SCell.le
 
 /-- `roots()` for order 1 (polynomial.py:372-376): `-b/a`, new leading axis of length 1 -/
 def rootsLinear (a b : SCell K) : List (SCell K) := [b.neg.div a]
+
+/-- `invert_line` (polynomial.py:147-161) for `y = a x + b`: `a_inv = 1./a` (masked where `a == 0`),
+    coefficients `(a_inv, -b * a_inv)`; `none` = ValueError unless the order is 1 -/
+def invertLine (p : PCell K) :
+    Option (SCell K × SCell K) :=
+  match p.c with
+  | [a, b] =>
+    let ainv := SCell.div (⟨1, false⟩ : SCell K) ⟨a, p.m⟩
+    some (ainv, (SCell.neg ⟨b, p.m⟩).mul ainv)
+  | _ => none
 
 /-- `roots()` for order 2 (polynomial.py:379-384) -/
 def rootsQuadratic (a b c : SCell K) : List (SCell K) :=
